@@ -231,6 +231,13 @@ func (w *World) callFunction(th *Thread, fn *ssa.Function, args []Value, env []V
 	if o := fn.Origin(); o != nil {
 		name = o.String()
 	}
+	if len(w.eng.replaceFns) > 0 {
+		if rf, ok := w.eng.replaceFns[name]; ok && rf != fn {
+			w.stubsSeen["replaced:"+name+"=>"+rf.Name()] = true
+			w.pushFrame(th, rf, args, nil, cont, site)
+			return
+		}
+	}
 	if in, ok := intrinsics[name]; ok {
 		res := in(w, th, fn, args)
 		if _, ok := res.(blockedT); ok {
